@@ -49,18 +49,18 @@ def verdicts (w : List Nat) : String × String := ((Xz.decode true w 100).tag, (
 #eval good.length                      -- 56
 #eval (decodeStrict good 100).result?  -- some ([65], 56)
 #eval verdicts good                    -- ("ok", "ok")
-#eval verdicts badUncomp               -- ("ok", "err InvalidData")   lax accepts, strict rejects
-#eval verdicts badUnpadded             -- ("ok", "err InvalidData")
-#eval verdicts badBackward             -- ("ok", "err InvalidData")
+#eval verdicts badUncomp               -- ("err InvalidData", "err InvalidData")   (the reader accepted it before the fix d05c50c)
+#eval verdicts badUnpadded             -- ("err InvalidData", "err InvalidData")
+#eval verdicts badBackward             -- ("err InvalidData", "err InvalidData")
 #eval verdicts twoStreams              -- ("ok", "ok")
 #eval (decodeStrict twoStreams 100).result?  -- some ([65, 65], 56 + 8 + 84 = 148)
 #eval verdicts misaligned              -- ("err InvalidData", "err InvalidData")
 #eval verdicts garbage                 -- ("err InvalidData", "err InvalidData")
-#eval verdicts reservedFlag            -- ("ok", "err InvalidInput")
+#eval verdicts reservedFlag            -- ("ok", "err InvalidInput")   remaining laxity of the reader
 #eval verdicts (withCompSize 5)        -- ("ok", "ok")
-#eval verdicts (withCompSize 6)        -- ("ok", "err InvalidData")
-#eval verdicts (withCompSize 0)        -- ("ok", "err InvalidData")
-#eval verdicts nonCanonId              -- ("ok", "err InvalidData")
+#eval verdicts (withCompSize 6)        -- ("err InvalidData", "err InvalidData")
+#eval verdicts (withCompSize 0)        -- ("err InvalidData", "err InvalidData")
+#eval verdicts nonCanonId              -- ("ok", "err InvalidData")    remaining laxity of the reader
 #eval verdicts (streamBytes .crc64 [.bcj .x86 0, .lzma2 65536] [])   -- ("ok", "ok")  empty stream
 
 end LzmaVerif.XzStrict.Tests
